@@ -193,8 +193,11 @@ func c16Message(r *rand.Rand, thorough bool) []byte {
 		return []byte{} // the empty message
 	default:
 		n := 100000 + r.Intn(900000)
-		if r.Intn(4) == 0 {
+		switch r.Intn(8) {
+		case 0, 1:
 			n = 2<<20 + r.Intn(1<<20)
+		case 2:
+			n = 4<<20 + r.Intn(3<<20) // larger than grpc's built-in 4 MiB default, below the configured 16 MiB
 		}
 		b := make([]byte, n)
 		r.Read(b)
@@ -243,7 +246,7 @@ func c16GRPC(c *ctx) {
 		defer b.srv.Stop()
 	}
 	grpcAddr := fmt.Sprintf("127.0.0.1:%d", freePort())
-	rg, err := newRig(c, "grpc", []string{"-proxy.addr", grpcAddr + ";proto=grpc", "-proxy.grpcshutdowntimeout", "1s", "-log.level", "WARN"})
+	rg, err := newRig(c, "grpc", []string{"-proxy.addr", grpcAddr + ";proto=grpc", "-proxy.grpcshutdowntimeout", "1s", "-proxy.grpcmaxrxmsgsize", "16777216", "-proxy.grpcmaxtxmsgsize", "16777216", "-log.level", "WARN"})
 	if err != nil {
 		c.R.Inconcl("cannot start fabio: %v", err)
 		return
@@ -509,9 +512,16 @@ func c16GRPC(c *ctx) {
 			c.R.Inconcl("barrier: %v", err)
 			break
 		}
-		for i := 0; i < 20; i++ {
-			call(r0)
+		// the first calls to the fresh backend arrive simultaneously: every one of them must be served
+		var cwg sync.WaitGroup
+		for k := 0; k < 24; k++ {
+			cwg.Add(1)
+			go func(k int) {
+				defer cwg.Done()
+				call(c.rng(int64(1700 + h*100 + k)))
+			}(k)
 		}
+		cwg.Wait()
 		if g.calls.Load() > 0 && g.ln.accepted.Load() == before && g.ln.open.Load() == 0 {
 			c.R.Violate("c16:no-fresh-connection", "gamma was re-added and called but no new connection was opened", nil)
 		}
